@@ -31,6 +31,10 @@ clauses
   supplied-seed-history     stochastic engine (Langevin, damped XL-BOMD, surface hopping) started from preset velocities: the same seed
                             gives bitwise identical HDF5 after two different RNG histories, and (seed-differs) another seed after the
                             SAME history gives a different trajectory
+  spelling-accepted / spelling-bitwise   every spelling of the COM-removal mode that initialize() accepts (capitals, surrounding blanks:
+                            'Angular', 'ANGULAR', ' angular ', ' Linear', ...) runs, gives bitwise the HDF5 of the canonical spelling with the
+                            same seed (fresh draws and supplied fields with net P and L; NVE and thermostatted), and satisfies every
+                            step-0 / periodic-removal clause under the canonical mode
   reuse-bitwise             ONE driver object (Basic, undamped XL-BOMD / KSA) run twice on fresh Molecules with remove_com sequences
                             angular->None, angular->linear, linear->None, None->angular: the second run satisfies every step-0 clause
                             under the mode of THAT run and is bitwise equal to a fresh driver's run with the same seed
@@ -50,7 +54,7 @@ ASSUMPTIONS = ["float64 CPU, one torch thread, runs of one case execute in one p
                "n_dof rule is the documented one (docs/source/bomd.rst: 3 / 6 constraints, linear molecules not auto-detected; "
                "Langevin keeps 3N)", "atomic masses of the shipped table are the property's given"]
 REQUIRED_MONITORS = ["md_runs", "draws_checked", "zero_com_calls", "zero_com_nontrivial", "digest_pairs", "supplied_checked",
-                     "padding_rows_checked", "linear_molecules", "stochastic_supplied", "reuse_sequences", "live_step0_checked", "sh_cells"]
+                     "padding_rows_checked", "linear_molecules", "stochastic_supplied", "reuse_sequences", "live_step0_checked", "sh_cells", "noncanonical_spellings"]
 CASE_TIMEOUT = 600.0
 BUDGET_S = {"quick": 230, "thorough": 1600}
 
@@ -82,6 +86,13 @@ def gen_cases(tier, seed):
                       "remove_com": [None, None, ["linear", 1], ["angular", 1], ["linear", 2]][(i // 5) % 5],
                       "seeds": [int(g.integers(0, 10 ** 6)), int(g.integers(0, 10 ** 6))], "steps": 2 if tier == "quick" else 3, "dt": [0.5, 0.2][i % 2],
                       "geom_seed": int(g.integers(0, 2 ** 31))})
+    spell = ["Angular", "ANGULAR", " angular ", "Linear", "\tangular\n", " LINEAR", "aNgUlAr", "angular "]
+    for i in range(4 if tier == "quick" else 32):
+        raw = spell[i % len(spell)] if i >= 4 else ["Angular", " angular ", "ANGULAR", " Linear"][i]
+        cases.append({"kind": "spelling", "mols": [["CH4"], ["H2O", "CH4"], ["NH3"], ["CH2O", "HCN"]][(i + i // 4) % 4],
+                      "engine": ["basic", "basic", "langevin", "xl"][i % 4], "method": ["AM1", "PM3"][i % 2], "Temp": [300.0, 1000.0][(i // 2) % 2],
+                      "raw_mode": raw, "stride": [1, 2, 1, 3][i % 4], "field": ["draw", "supplied"][i % 2], "field_T": 300.0,
+                      "seed": int(g.integers(0, 10 ** 6)), "steps": 3, "dt": [0.5, 0.2][i % 2], "geom_seed": int(g.integers(0, 2 ** 31))})
     seqs = [(["angular", 1], None), (["angular", 2], ["linear", 1]), (["linear", 1], None), (None, ["angular", 1])]
     rsys = [["CH4"], ["H2O", "CH4"], ["CO2", "NH3", "H2"], ["CH2O"]]
     for i in range(6 if tier == "quick" else 48):
@@ -134,7 +145,7 @@ def _sett(case):
 
 
 def _ndof_rule(engine, nat, rc):
-    c = 0.0 if rc is None else (6.0 if str(rc[0]).lower() == "angular" else 3.0)
+    c = 0.0 if rc is None else (6.0 if str(rc[0]).lower().strip() == "angular" else 3.0)
     if engine in ("langevin", "xl-damped", "sh", "sh-nve"):  # Langevin.set_dof (inherited by surface hopping) keeps 3N
         c = 0.0
     return 3.0 * nat - c
@@ -168,7 +179,7 @@ def _rigid_factor(m, X):
 def _ndof_mech(case, Zs):
     """classifier: a molecule with <= 2 atoms under ('angular', N) in an engine that subtracts the constraints has 3N-6 <= 0."""
     rc = case["remove_com"]
-    if rc is not None and str(rc[0]).lower() == "angular" and case["engine"] in ("basic", "xl", "ksa") and any(len(z) <= 2 for z in Zs):
+    if rc is not None and str(rc[0]).lower().strip() == "angular" and case["engine"] in ("basic", "xl", "ksa") and any(len(z) <= 2 for z in Zs):
         return "ndof-zero-diatomic-angular"
     return None
 
@@ -254,13 +265,16 @@ class _Acc:
             self.viol.append({"clause": name, "mech": mech, "detail": detail or {}})
 
 
-def _one_run(case, S, C, sett, prefix, seed, velocities=None, preconsume=0, outer_seed=None, engine_obj=None, keep=False):
+def _one_run(case, S, C, sett, prefix, seed, velocities=None, preconsume=0, outer_seed=None, engine_obj=None, keep=False,
+             rc_raw=None):
     """one real md.run; returns record incl. post-initialize snapshot, digests, zero_com events."""
     import torch
     from vlib import md
 
     eng, damp, xl = _engine(case)
     rc = tuple(case["remove_com"]) if case["remove_com"] else None
+    if rc_raw is not None:
+        rc = tuple(rc_raw)  # the caller's own spelling of the mode is handed to run() unchanged
     snap = {}
 
     def pre_run(mol, mdo):
@@ -357,7 +371,7 @@ def _step0(acc, case, Zs, rec, tag, drawn):
             lv = None
         nd = _ndof_rule(case["engine"], len(Zr), rc)
         allowed = {nd}
-        if nd != 3.0 * len(Zr) and str(rc[0]).lower() == "angular" and case["mols"][k] in LINEAR:
+        if nd != 3.0 * len(Zr) and str(rc[0]).lower().strip() == "angular" and case["mols"][k] in LINEAR:
             allowed.add(3.0 * len(Zr) - 5.0)  # physically right count for a linear molecule, should the TODO ever be done
         fac = _rigid_factor(mm, x0)
         if rec["n_dof"] is not None:
@@ -404,7 +418,7 @@ def _step0(acc, case, Zs, rec, tag, drawn):
                     continue
                 fs = _rigid_factor(mm, h["coordinates"][s_])
                 acc.upd("periodic-P", np.abs(P).max(), fs * ps, {"mol": k, "step": s_, "run": tag, "rel_tolerance": fs})
-                if str(rc[0]).lower() == "angular":
+                if str(rc[0]).lower().strip() == "angular":
                     acc.upd("periodic-L", np.abs(L).max(), fs * ls, {"mol": k, "step": s_, "run": tag, "rel_tolerance": fs})
     return ok
 
@@ -578,7 +592,54 @@ def _reuse(case):
                     "n_dof_second": None if R2["n_dof"] is None else R2["n_dof"].tolist(), "bitwise_equal_to_fresh": R2["digest"] == F["digest"]}}
 
 
+def _spelling(case):
+    """every spelling of the COM-removal mode that initialize() accepts (it lower-cases and strips the string) must behave like the
+    canonical one: bitwise the same HDF5, the documented n_dof / T0, momenta zero after each due removal."""
+    from vlib import env, md
+
+    acc = _Acc()
+    S, C, Zs, g = _system(case)
+    raw = case["raw_mode"]
+    canon = raw.lower().strip()
+    if canon not in ("linear", "angular") or raw == canon:
+        return {"ineligible": "not a non-canonical accepted spelling: %r" % raw}
+    cc = dict(case, remove_com=[canon, case["stride"]])
+    sett = _sett(cc)
+    V = None
+    if case["field"] == "supplied":
+        V = np.array([md.supplied_velocities(s_, np.array(c_), case["field_T"], g, net_linear=True, net_angular=True) for s_, c_ in zip(S, C)])
+    with env.Scratch("c13") as d:
+        A = _one_run(cc, S, C, sett, d + "/canon", case["seed"], velocities=V)
+        B = _one_run(cc, S, C, sett, d + "/raw", case["seed"], velocities=V, preconsume=11, rc_raw=(raw, case["stride"]))
+    if A["error"]:
+        return {"inconclusive": "canonical run raised: %s" % A["error"][:300]}
+    acc.mon["md_runs"] += 1
+    if B["error"]:
+        acc.flag("spelling-accepted", True, {"raw_mode": raw, "canonical": canon, "error": B["error"][:400]})
+        return {"nontrivial": False, "violations": acc.viol, "margins": acc.margins, "monitors": acc.mon, "cells": [], "obs": {"error": B["error"][:300]}}
+    acc.flag("spelling-accepted", False)
+    acc.mon["md_runs"] += 1
+    drawn = V is None
+    ok = _step0(acc, cc, Zs, A, "canonical", drawn=drawn)
+    ok &= _step0(acc, cc, Zs, B, "raw:%r" % raw, drawn=drawn)
+    for tag, r in (("canonical", A), ("raw", B)):
+        _check_padding(acc, S, C, r, tag)
+        _check_events(acc, r, tag)
+    stochastic = case["engine"] in ("langevin", "xl-damped", "sh") and case["Temp"] > 0.0
+    # same seed => the thermostat noise is the same too: the two requests are the same request
+    acc.flag("spelling-bitwise", A["digest"] != B["digest"],
+             {"raw_mode": raw, "canonical": canon, "engine": case["engine"], "field": case["field"], "stochastic": stochastic,
+              "n_dof_canonical": None if A["n_dof"] is None else A["n_dof"].tolist(), "n_dof_raw": None if B["n_dof"] is None else B["n_dof"].tolist()})
+    acc.mon["digest_pairs"] += 1
+    acc.mon["noncanonical_spellings"] += 1
+    acc.cells.append("spelling/%s/%s/%s" % (case["engine"], raw.strip().replace("\t", "").replace("\n", "") + ("+blank" if raw != raw.strip() else ""), case["field"]))
+    return {"nontrivial": bool(ok), "violations": acc.viol, "margins": acc.margins, "monitors": acc.mon, "cells": acc.cells,
+            "obs": {"raw_mode": raw, "bitwise_equal": A["digest"] == B["digest"], "n_dof": None if B["n_dof"] is None else B["n_dof"].tolist()}}
+
+
 def run_case(case):
+    if case["kind"] == "spelling":
+        return _spelling(case)
     if case["kind"] == "reuse":
         return _reuse(case)
     if case["kind"] == "draw":
